@@ -22,10 +22,10 @@ func init() {
 	register(&Property{
 		ID:    "C01",
 		Level: "other",
-		Explain: "The statement as a whole (no index/nil panic for any bytes; a wall-clock bound) is not statically provable here: about 350 bounds checks are left unproven even by the compiler. Decided are structural necessary conditions, each of which, when broken, gives an input that crashes, hangs or returns an error: (L) no loop reachable from Convert has a 'stuck' cycle — a cycle header→header along which every loop-carried value keeps its value, no store and no impure call happens, so the exit tests can never change; (A) every inline parser that returns a node has moved the reader on that path (parseBlock re-peeks the same position otherwise: hang and unbounded growth); (U) no countdown loop whose test admits -1 uses its index afterwards without a sign test; (P) the explicit panics reachable from Convert are exactly the reviewed inventory; (K) every registered render function's unconditional node type assertion agrees with the kind it is registered for; (D) the renderer's dispatch tolerates kinds without a function (= C20-D); (E) render functions return a nil error, Render returns only the walk's or Flush's error, Convert returns Render's (= C14-F/W/N). Not decided: index-out-of-range and nil dereference in general, recursion depth on deep nesting, cycles that change something but not enough, the time bound.",
+		Explain: "The statement as a whole (no index/nil panic for any bytes; a wall-clock bound) is not statically provable here: about 350 bounds checks are left unproven even by the compiler. Decided are structural necessary conditions, each of which, when broken, gives an input that crashes, hangs or returns an error: (L) no loop reachable from Convert has a 'stuck' cycle — a cycle header→header along which every loop-carried value keeps its value, no store and no impure call happens, so the exit tests can never change; (A) every inline parser that returns a node has moved the reader on that path (parseBlock re-peeks the same position otherwise: hang and unbounded growth); (U) no countdown loop whose test admits -1 uses its index afterwards without a sign test; (P) the explicit panics reachable from Convert are exactly the reviewed inventory; (K) every registered render function's unconditional node type assertion agrees with the kind it is registered for; (T) no code reachable from Parse asserts a single dynamic type, without the comma-ok form, on a value looked up from a node's attributes — attribute values written in the source are []byte, float64, bool, nil or lists, and the attribute renderer itself dispatches on the dynamic type; (D) the renderer's dispatch tolerates kinds without a function (= C20-D); (E) render functions return a nil error, Render returns only the walk's or Flush's error, Convert returns Render's (= C14-F/W/N). Not decided: index-out-of-range and nil dereference in general, recursion depth on deep nesting, cycles that change something but not enough, the time bound.",
 		Trusted: []string{"purity table for stdlib callees used in loop conditions", "VTA call graph with pass-site refinement (DESIGN 2.2)"},
 		Assumes: []string{"the destination writer does not fail (statement)", "user-supplied extensions out of scope"},
-		Rules: []func(*World, *Report){ruleCountdownUnderflowC01, ruleStuckCycles, ruleInlineParsersAdvance, rulePanicInventory, ruleRegistryAgreement,
+		Rules: []func(*World, *Report){ruleCountdownUnderflowC01, ruleStuckCycles, ruleInlineParsersAdvance, rulePanicInventory, ruleRegistryAgreement, ruleAttributeAssertions,
 			ruleTolerantDispatch, ruleRenderFuncsNilError, ruleRenderReturnsFlush, ruleWalkErrors},
 	})
 }
@@ -396,4 +396,69 @@ func kindName(g *ssa.Global) string {
 		return "<non-global kind>"
 	}
 	return g.Name()
+}
+
+// ---- C01-T ---------------------------------------------------------------------------------------
+
+func ruleAttributeAssertions(w *World, r *Report) {
+	r.Rule("C01-T", "Contradiction rule: attribute values are dynamically typed (the attribute parser produces []byte, float64, bool, nil and lists; html.RenderAttributes dispatches on the dynamic type). In every module function reachable from Parse, a type assertion without comma-ok whose operand is the value result of a node attribute lookup (Attribute / AttributeString on an ast.Node) is a panic for a source such as '# a {id=1}'.")
+	reach := w.CG().Reach(w.Entries().Parse, nil)
+	isLookup := func(v ssa.Value) bool {
+		ex, ok := v.(*ssa.Extract)
+		if !ok || ex.Index != 0 {
+			return false
+		}
+		c, ok := ex.Tuple.(*ssa.Call)
+		if !ok {
+			return false
+		}
+		com := c.Common()
+		name := ""
+		if com.IsInvoke() {
+			name = com.Method.Name()
+		} else if cal := com.StaticCallee(); cal != nil && cal.Signature.Recv() != nil {
+			name = cal.Name()
+		}
+		if name != "Attribute" && name != "AttributeString" {
+			return false
+		}
+		sig := com.Signature()
+		if sig.Results().Len() != 2 {
+			return false
+		}
+		_, isI := sig.Results().At(0).Type().Underlying().(*types.Interface)
+		return isI && isBool(sig.Results().At(1).Type())
+	}
+	var fns []*ssa.Function
+	for fn := range reach {
+		if w.InModule(fn) && fn.Blocks != nil {
+			fns = append(fns, fn)
+		}
+	}
+	sort.Slice(fns, func(i, j int) bool { return fns[i].String() < fns[j].String() })
+	nLookups, nAsserts := 0, 0
+	for _, fn := range fns {
+		k := 0
+		for _, b := range fn.Blocks {
+			for _, ins := range b.Instrs {
+				if ex, ok := ins.(*ssa.Extract); ok && isLookup(ex) {
+					nLookups++
+				}
+				ta, ok := ins.(*ssa.TypeAssert)
+				if !ok || !isLookup(ta.X) {
+					continue
+				}
+				nAsserts++
+				k++
+				key := fmt.Sprintf("%s: assertion #%d of a looked-up attribute value to %s", w.FnKey(fn), k, typeShort(ta.AssertedType))
+				if ta.CommaOk {
+					r.OK(key, w.InstrPos(ins), "comma-ok form")
+				} else {
+					r.Bad(key, w.InstrPos(ins), "unconditional type assertion on an attribute value that the source controls: an attribute written as a number, boolean or list (e.g. {id=1}) panics here: "+strings.Join(w.PathTo(reach, fn), " -> "))
+				}
+			}
+		}
+	}
+	r.Expect("attribute lookups in code reachable from Parse", nLookups, 2)
+	r.Expect("type assertions on looked-up attribute values", nAsserts, 2)
 }
